@@ -43,6 +43,10 @@ def run(ctx):
             if m['executed'] == 0:
                 raise vlib.Infra('nothing executed')
     ctx.cov['exhaustive'] = True
+    rcf = ctx.tlc('templates', 'Templates', 'MC_Templates_cachefail.cfg', workers=4, timeout=300, name='cachefail variant (a failed layout load remembered; must violate BadAlwaysFails)')
+    ctx.cov['states'] -= rcf['distinct']; ctx.cov['transitions'] -= rcf['generated']
+    if not rcf['violated']:
+        raise vlib.Infra('spec self-test failed: the cachefail variant violates nothing')
     rn = ctx.tlc('templates', 'Templates', 'MC_Templates_noclone.cfg', workers=4, timeout=300, name='noclone variant (must violate LayeredAndIsolated)')
     ctx.cov['states'] -= rn['distinct']; ctx.cov['transitions'] -= rn['generated']
     if 'Inv' not in rn['violated']:
